@@ -7,20 +7,22 @@ J=4
 while getopts "j:" o; do case $o in j) J=$OPTARG;; esac; done; shift $((OPTIND-1))
 MUT_DIR=${MUT_DIR:-/tmp/mutsweep}; mkdir -p $MUT_DIR
 (cd /verif/tools/mutgen && go build -o $MUT_DIR/mutgen .) || exit 2
-$MUT_DIR/mutgen list /repo > $MUT_DIR/mutants.tsv
+# frozen copy of /repo HEAD: mutant ids stay valid while /repo moves on
+if [ ! -d $MUT_DIR/base ]; then git -C /repo worktree add -q --detach $MUT_DIR/base HEAD || exit 2; fi
+$MUT_DIR/mutgen list $MUT_DIR/base > $MUT_DIR/mutants.tsv
 N=$(wc -l < $MUT_DIR/mutants.tsv)
 FIRST=${1:-0}; LAST=${2:-$((N-1))}
 for k in $(seq 1 $J); do
   WT=$MUT_DIR/slot$k
   git -C /repo worktree remove --force $WT 2>/dev/null; rm -rf $WT
-  git -C /repo worktree add -q --detach $WT HEAD || exit 2
+  git -C /repo worktree add -q --detach $WT $(git -C $MUT_DIR/base rev-parse HEAD) || exit 2
 done
 one() { # $1 = slot, $2 = id
   WT=$MUT_DIR/slot$1; id=$2
-  $MUT_DIR/mutgen apply /repo $id $WT >/dev/null
+  $MUT_DIR/mutgen apply $MUT_DIR/base $id $WT >/dev/null
   verdict=stillborn
   if (cd $WT && go build ./... ) >/dev/null 2>&1; then
-    if (cd $WT && timeout 120 go test -vet=off -count=1 ./... ) >/dev/null 2>&1; then verdict=suite-passes; else verdict=suite-kills; fi
+    if (cd $WT && timeout 60 go test -vet=off -count=1 ./... ) >/dev/null 2>&1; then verdict=suite-passes; else verdict=suite-kills; fi
   fi
   git -C $WT checkout -q -- .
   echo -e "$id\t$verdict\t$(sed -n "$((id+1))p" $MUT_DIR/mutants.tsv | cut -f2-)"
